@@ -89,6 +89,10 @@ pub fn show_opt(o: &Option<XV>) -> String {
         Some(v) => format!("Some({})", v.show()),
     }
 }
+pub fn show_bigs(xs: &[BigRational]) -> String {
+    let v: Vec<String> = xs.iter().take(64).map(|r| format!("{r}")).collect();
+    format!("[{}{}]", v.join(","), if xs.len() > 64 { ",…" } else { "" })
+}
 pub fn show_rats(xs: &[Rat]) -> String {
     let v: Vec<String> = xs.iter().take(64).map(|r| if r.1 == 1 { format!("{}", r.0) } else { format!("{}/{}", r.0, r.1) }).collect();
     format!("[{}{}]", v.join(","), if xs.len() > 64 { ",…" } else { "" })
